@@ -51,6 +51,39 @@ impl WalletUnderTest {
         let mut db = factory
             .new_data_store(sim.net, retention, None)
             .expect("data store");
+        // A non-empty starting state: what a client restoring from a checkpoint does (and what
+        // zcash_client_backend's TestBuilder does): roots of the completed subtrees, then the
+        // frontier as a checkpoint at the base height.
+        {
+            use incrementalmerkletree::{Marking, Retention};
+            use zcash_client_backend::data_api::{chain::CommitmentTreeRoot, WalletCommitmentTrees};
+            let bh = sim.base.block_height();
+            let root_h = |i: usize| BlockHeight::from_u32(100_001 + 10 * i as u32);
+            if sim.base.final_sapling_tree().tree_size() > 0 {
+                let roots: Vec<_> = sim.prior_roots[0].iter().enumerate()
+                    .map(|(i, r)| CommitmentTreeRoot::from_parts(root_h(i), sapling::Node::from_bytes(*r).unwrap())).collect();
+                db.put_sapling_subtree_roots(0, &roots).expect("prior sapling roots");
+                db.with_sapling_tree_mut::<_, _, shardtree::error::ShardTreeError<zcash_client_sqlite::wallet::commitment_tree::Error>>(|t| {
+                    t.insert_frontier(sim.base.final_sapling_tree().clone(), Retention::Checkpoint { id: bh, marking: Marking::Reference })
+                }).expect("base sapling frontier");
+            }
+            if sim.base.final_orchard_tree().tree_size() > 0 {
+                let roots: Vec<_> = sim.prior_roots[1].iter().enumerate()
+                    .map(|(i, r)| CommitmentTreeRoot::from_parts(root_h(i), orchard::tree::MerkleHashOrchard::from_bytes(r).unwrap())).collect();
+                db.put_orchard_subtree_roots(0, &roots).expect("prior orchard roots");
+                db.with_orchard_tree_mut::<_, _, shardtree::error::ShardTreeError<zcash_client_sqlite::wallet::commitment_tree::Error>>(|t| {
+                    t.insert_frontier(sim.base.final_orchard_tree().clone(), Retention::Checkpoint { id: bh, marking: Marking::Reference })
+                }).expect("base orchard frontier");
+            }
+            if sim.base.final_ironwood_tree().tree_size() > 0 {
+                let roots: Vec<_> = sim.prior_roots[2].iter().enumerate()
+                    .map(|(i, r)| CommitmentTreeRoot::from_parts(root_h(i), orchard::tree::MerkleHashOrchard::from_bytes(r).unwrap())).collect();
+                db.put_ironwood_subtree_roots(0, &roots).expect("prior ironwood roots");
+                db.with_ironwood_tree_mut::<_, _, shardtree::error::ShardTreeError<zcash_client_sqlite::wallet::commitment_tree::Error>>(|t| {
+                    t.insert_frontier(sim.base.final_ironwood_tree().clone(), Retention::Checkpoint { id: bh, marking: Marking::Reference })
+                }).expect("base ironwood frontier");
+            }
+        }
         let birthday = AccountBirthday::from_parts(sim.base.clone(), None);
         let mut accounts = vec![];
         for (i, k) in sim.accounts.iter().enumerate() {
